@@ -37,6 +37,13 @@ out.append("")
 dp = root + '/seeded/detection.json'
 if os.path.exists(dp):
     det = json.load(open(dp))
+    for extra in ('detection_b.json', 'detection_redo.json'):
+        ep = root + '/seeded/' + extra
+        if os.path.exists(ep):
+            for k, v in json.load(open(ep)).items():
+                # a later run replaces an earlier "missed"
+                if k not in det or not det[k].get('caught_by') or extra == 'detection_redo.json':
+                    det[k] = v
     out.append("#### 11.5.1 Seeded changes and the checks that catch them (generated from seeded/detection.json)\n")
     out.append("| seeded change | what it changes | caught by (quick tier) | violated assertion |")
     out.append("|---|---|---|---|")
